@@ -98,6 +98,35 @@ Theorem C10_two_pass : forall k p w, write_to2 k p w = write_to k p w.
 Proof. exact two_pass. Qed.
 Print Assumptions C10_two_pass.
 
+(* The property in one statement, about the code as it runs (two passes,
+   guarded positional writes): for every defined type, packet and writer, if
+   WriteTo returns at all (it panics only on a CONNECT whose will flag is set
+   without a will, excluded by C10_total), the writer was handed exactly one
+   Write, with the bytes [first byte] ++ [minimal variable byte integer of
+   the body length] ++ body; the count returned is what the writer reports
+   (the whole length on success, the accepted count with the writer's error
+   otherwise); and the size String() prints is that length. *)
+Theorem C10_whole : forall k p w r, k <> KUndefined -> write_to2 k p w = Some r ->
+  exists bs body,
+    w_calls r = [bs] /\
+    bs = n2b (getN (M F_fixed) p) :: enc_vb (len body) ++ body /\
+    pfill_pkt k p [] 0%nat = Some ([], length bs) /\
+    match w with
+    | Accept => w_n r = length bs /\ w_err r = None
+    | FailW e => w_n r = 0%nat /\ w_err r = Some e
+    | Short n e => w_n r = Nat.min n (length bs) /\ w_err r = Some e
+    end /\
+    forall ts, string_toks k p = Some ts -> size_token ts (len bs).
+Proof.
+  intros k p w r Hk H. rewrite two_pass in H.
+  destruct (C10_one_write k p w r Hk H) as (bs & E & Hc & Hw).
+  destruct (C10_frame k p bs E) as (body & Hb).
+  exists bs, body. split; [exact Hc|]. split; [exact Hb|].
+  split; [exact (dry_run_width k p bs E)|]. split; [exact Hw|].
+  intros ts Hs. exact (string_size k p bs ts Hk E Hs).
+Qed.
+Print Assumptions C10_whole.
+
 Example C10_two_pass_example :
   write_to2 KPublish (run_calls KPublish [SetTopicName [x61; x2f; x62]; SetPayload [x68; x69]]) Accept
   = Some {| w_n := 10; w_err := None;
